@@ -298,6 +298,21 @@ func checkC04(R *Run) {
 					}
 					findings = append(findings, finding{kind + " " + name, P.ipos(x), "reachable without a successful login and has effects [" + strings.Join(cls, ",") + "]" + via})
 				}
+				// a helper that is handed the connection and writes exactly one error reply to it
+				if rwc != nil && name != "hotline.performHandshake" && name != "hotline.sendBanMessage" {
+					for i, a := range c.Args {
+						if stripConv(a) != rwc {
+							continue
+						}
+						for _, cal := range P.callees(x) {
+							errW, otherW := helperWrites(P, cal, i)
+							nErrWrites += errW
+							if otherW > 0 {
+								findings = append(findings, finding{"write to the connection via " + fname(cal), P.ipos(x), "something other than the single error reply is written to an unauthenticated connection"})
+							}
+						}
+					}
+				}
 				// writes to the connection
 				if rwc != nil {
 					isWrite := (c.IsInvoke() && c.Method.Name() == "Write" && stripConv(c.Value) == rwc) ||
@@ -512,3 +527,36 @@ func checkC04(R *Run) {
 }
 
 func init() { register("C04", checkC04) }
+
+// helperWrites counts, in a small helper, the writes to its parameter #idx: error replies vs anything else.
+func helperWrites(P *Prog, fn *ssa.Function, idx int) (errReplies, others int) {
+	if fn == nil || idx >= len(fn.Params) {
+		return 0, 0
+	}
+	w := ssa.Value(fn.Params[idx])
+	for _, ci := range callsIn(fn) {
+		c := ci.Common()
+		n := calleeName(c)
+		isWrite := (c.IsInvoke() && c.Method.Name() == "Write" && stripConv(c.Value) == w) ||
+			((n == "io.Copy" || n == "io.CopyN" || n == "encoding/binary.Write") && len(c.Args) > 0 && stripConv(c.Args[0]) == w)
+		if !isWrite {
+			continue
+		}
+		fromErr := false
+		if len(c.Args) > 1 {
+			F := &Flow{P: P, Call: func(cc *ssa.Call, i int) ([]ssa.Value, bool) {
+				if calleeName(&cc.Call) == "(*hotline.ClientConn).NewErrReply" {
+					fromErr = true
+				}
+				return nil, true
+			}}
+			F.Back(c.Args[1])
+		}
+		if fromErr {
+			errReplies++
+		} else {
+			others++
+		}
+	}
+	return
+}
